@@ -337,15 +337,22 @@ def BRepr.evaluate (O : Ops α) (r : BRepr α) (state : Nat → α) (step : Nat)
     | some v => some (O.sub (state column) v)
     | none => none
 
-/-- the prover's `BoundaryConstraintGroup`: main constraints, then auxiliary ones, with coefficients -/
+/-- one specialised constraint of a prover group: the representation `r`, the coefficient `cc`, and
+    (ghost, never used by the evaluation) the constraint `c` it was built from -/
+structure PItem (α : Type) where
+  c : BConstraint α
+  r : BRepr α
+  cc : α
+
+/-- the prover's `BoundaryConstraintGroup`: main constraints, then auxiliary ones -/
 structure PGroup (α : Type) where
   divisor : Divisor α
-  mainItems : List (BRepr α × α)
-  auxItems : List (BRepr α × α)
+  mainItems : List (PItem α)
+  auxItems : List (PItem α)
 
 def toReprs (O : Ops α) (D : Domain α) (threshold : Nat) (items : List (BConstraint α × α)) :
-    Option (List (BRepr α × α)) :=
-  items.mapM (fun p => (BRepr.ofConstraint O D threshold p.1).map (fun r => (r, p.2)))
+    Option (List (PItem α)) :=
+  items.mapM (fun p => (BRepr.ofConstraint O D threshold p.1).map (fun r => (⟨p.1, r, p.2⟩ : PItem α)))
 
 /-- `ConstraintDivisor == ConstraintDivisor` (derived PartialEq) with the field's equality `beq` -/
 def divisorEq (beq : α → α → Bool) (a b : Divisor α) : Bool :=
@@ -354,7 +361,7 @@ def divisorEq (beq : α → α → Bool) (a b : Divisor α) : Bool :=
   (a.exemptions.zip b.exemptions).all (fun p => beq p.1 p.2)
 
 /-- merge one auxiliary group: into the first group with the same divisor, else a new group -/
-def mergeAux (beq : α → α → Bool) (d : Divisor α) (items : List (BRepr α × α)) : List (PGroup α) → List (PGroup α)
+def mergeAux (beq : α → α → Bool) (d : Divisor α) (items : List (PItem α)) : List (PGroup α) → List (PGroup α)
   | [] => [⟨d, [], items⟩]
   | grp :: rest =>
     if divisorEq beq grp.divisor d then { grp with auxItems := grp.auxItems ++ items } :: rest
@@ -368,8 +375,8 @@ def proverGroups (O : Ops α) (beq : α → α → Bool) (D : Domain α) (thresh
 
 /-- `evaluate_main` / `evaluate_all` of one group at one step -/
 def PGroup.evaluate (O : Ops α) (grp : PGroup α) (mainState auxState : Nat → α) (step : Nat) (x : α) : Option α := do
-  let m ← sumTerms O (fun (p : BRepr α × α) => (p.1.evaluate O mainState step x).map (fun v => O.mul p.2 v)) grp.mainItems
-  let a ← sumTerms O (fun (p : BRepr α × α) => (p.1.evaluate O auxState step x).map (fun v => O.mul p.2 v)) grp.auxItems
+  let m ← sumTerms O (fun (p : PItem α) => (p.r.evaluate O mainState step x).map (fun v => O.mul p.cc v)) grp.mainItems
+  let a ← sumTerms O (fun (p : PItem α) => (p.r.evaluate O auxState step x).map (fun v => O.mul p.cc v)) grp.auxItems
   pure (O.add m a)
 
 -- ================================================================================ PROVER: periodic table
